@@ -53,6 +53,10 @@ def main(argv=None):
         jobs = [j for j in jobs if only in j.name]
     replay_dir = os.path.join(env.VERIF, "replays", prop)
     os.makedirs(replay_dir, exist_ok=True)
+    if not only:
+        for fn in os.listdir(replay_dir):
+            if fn.endswith(".json"):
+                os.unlink(os.path.join(replay_dir, fn))
 
     def log(r):
         recs = r.get("records", [])
